@@ -314,6 +314,50 @@ def api_flag_cases(only=None):
             fails.append((name, f"inputs received gradients {got}; with inputs constant={inconst} and the result constant={kw} every one must be {want}"))
         if any(o.grad is not None for o in outs) and kw:
             fails.append((name, "a result made constant acquired a .grad"))
+    # (d) inferred flags of functions of several tensors, for every combination of the operands' flags (an operand may
+    # also be a plain ndarray): the result is constant iff every operand is, and exactly the non-constant operands
+    # receive a gradient
+    MIXED = [
+        ("multi_matmul-1d-ends", [(3,), (3, 3), (3,)], lambda xs: mg.multi_matmul(xs)),
+        ("multi_matmul-1d-last", [(2, 3), (3, 3), (3,)], lambda xs: mg.multi_matmul(xs)),
+        ("multi_matmul-1d-first", [(3,), (3, 3), (3, 2)], lambda xs: mg.multi_matmul(xs)),
+        ("multi_matmul-2d", [(2, 3), (3, 3), (3, 2)], lambda xs: mg.multi_matmul(xs)),
+        ("multi_matmul-4", [(3,), (3, 3), (3, 3), (3,)], lambda xs: mg.multi_matmul(xs)),
+        ("einsum-3", [(2, 3), (3, 3), (3,)], lambda xs: mg.einsum("ij,jk,k->i", *xs)),
+        ("add_sequence-3", [(3,), (3,), (3,)], lambda xs: mg.add_sequence(*xs)),
+        ("multiply_sequence-3", [(3,), (3,), (3,)], lambda xs: mg.multiply_sequence(*xs)),
+        ("concatenate-3", [(2,), (3,), (1,)], lambda xs: mg.concatenate(xs)),
+        ("stack-3", [(3,), (3,), (3,)], lambda xs: mg.stack(xs)),
+        ("where-xy", [(3,), (3,)], lambda xs: mg.where(np.array([True, False, True]), xs[0], xs[1])),
+        ("clip-tensor-bounds", [(4,), (4,), (4,)], lambda xs: mg.clip(xs[0] * 0.1, xs[1] * 0.05, xs[2] * 0.08)),
+        ("matmul", [(2, 3), (3,)], lambda xs: mg.matmul(*xs)),
+    ]
+    for fname, shapes, f in MIXED:
+        for flags in itertools.product((False, True, "array"), repeat=len(shapes)):
+            name = f"inferred-flag|{fname}|operands={','.join(str(x) for x in flags)}"
+            if only is not None and name != only:
+                continue
+            n += 1
+            ts = [T(bool(c), *sh) if c != "array" else None for c, sh in zip(flags, shapes)]
+            xs = [t if t is not None else (np.arange(float(np.prod(sh))).reshape(sh) + 1.0) for t, sh in zip(ts, shapes)]
+            try:
+                r = f(xs)
+            except Exception as e:  # noqa: BLE001
+                fails.append((name, f"raised {type(e).__name__}: {str(e)[:80]}"))
+                continue
+            want_const = all(c is not False for c in flags)
+            if not isinstance(r, mg.Tensor) or r.constant != want_const:
+                fails.append((name, f"the result has constant={getattr(r, 'constant', None)}; the operands' flags make it {want_const}"))
+                continue
+            try:
+                (r * 1.0).sum().backward()
+            except Exception as e:  # noqa: BLE001
+                fails.append((name, f"backward raised {type(e).__name__}"))
+                continue
+            got = [None if t is None else (t.grad is not None) for t in ts]
+            want = [None if t is None else (c is False) for t, c in zip(ts, flags)]
+            if got != want:
+                fails.append((name, f"operands received gradients {got}, expected {want} (None: an ndarray operand)"))
     # (c) conversions with an explicit constant= : the flag wins (for integer data constant=False is refused instead)
     CONV = [
         ("astype-nocopy", lambda t, c: t.astype(t.dtype, copy=False, constant=c)),
@@ -394,9 +438,11 @@ def run(ctx: Ctx) -> Outcome:
         out.nontrivial.add(stable_hash(["api-flag", k]))
     seen_api = set()
     for name, msg in fapi:
-        if name not in seen_api:
-            seen_api.add(name)
-            out.violations.append(Violation(f"C10|api-flag|{name}", f"{name}: {msg}", {"kind": "api", "name": name}))
+        # one violation per entry point (and per kind of case), witnessed by its first failing combination
+        fam = "|".join(name.split("|")[:2])
+        if fam not in seen_api:
+            seen_api.add(fam)
+            out.violations.append(Violation(f"C10|api-flag|{fam}", f"{name}: {msg}", {"kind": "api", "name": name}))
     out.assumptions = ["the dtype gate (integer/bool always constant) is also part of C17's lattice model"]
     return out
 
@@ -456,4 +502,4 @@ def check_witness(w):
             return Violation(f"C10|{cls[:-1]}", msg, {"kind": "program", "program": w["program"], "class": cls})
     return None
 
-MANIFEST_ADDENDUM = 'Oracle additions: the flag rule at the public API — in-place targets under every explicit constant= (base/view, three spellings), an explicit constant= on 21 functions of several tensors / sequence functions / calls that change nothing, conversions (astype, copy, astensor, tensor) under an explicit constant=.'
+MANIFEST_ADDENDUM = 'Oracle addition: inferred flags and gradient routing of the n-ary functions (multi_matmul with 1-D/2-D ends, einsum, add/multiply_sequence, concatenate, stack, where, clip with tensor bounds, matmul) for every combination of constant / non-constant / ndarray operands. Oracle additions: the flag rule at the public API — in-place targets under every explicit constant= (base/view, three spellings), an explicit constant= on 21 functions of several tensors / sequence functions / calls that change nothing, conversions (astype, copy, astensor, tensor) under an explicit constant=.'
